@@ -38,6 +38,8 @@ type TraceEvent struct {
 	Len  int    `json:"len"`
 	Dec  string `json:"dec,omitempty"`
 	Ord  int    `json:"ord"`
+	// SentT is, for recv events, the time the packet was offered to the link.
+	SentT int64 `json:"sent_t,omitempty"`
 }
 
 func (e TraceEvent) String() string {
@@ -142,8 +144,9 @@ func safeDeserialize(b []byte) (m gbn.Message, err error) {
 }
 
 type item struct {
-	at time.Time
-	b  []byte
+	at   time.Time
+	b    []byte
+	sent int64
 }
 
 // Link is one direction of the transport: a FIFO of (deliverAt, bytes).
@@ -260,7 +263,7 @@ func (l *Link) enqueue(b []byte, extra time.Duration) {
 		at = l.lastAt
 	}
 	l.lastAt = at
-	l.q = append(l.q, item{at: at, b: b})
+	l.q = append(l.q, item{at: at, b: b, sent: l.trace.Now()})
 }
 
 // Inject queues raw bytes as if the peer had sent them (not subject to the
@@ -352,7 +355,7 @@ func (l *Link) Recv(ctx context.Context) ([]byte, error) {
 				it := l.q[0]
 				l.q = l.q[1:]
 				typ, seq, fl := Describe(it.b)
-				l.trace.add(TraceEvent{T: l.trace.Now(), Dir: l.Name, Ev: "recv", Type: typ, Seq: seq, Fl: fl, Len: len(it.b), Ord: -1})
+				l.trace.add(TraceEvent{T: l.trace.Now(), Dir: l.Name, Ev: "recv", Type: typ, Seq: seq, Fl: fl, Len: len(it.b), Ord: -1, SentT: it.sent})
 				l.mu.Unlock()
 				return it.b, nil
 			}
